@@ -94,12 +94,20 @@ def diagnose(missing, declared):
     declared type for every missing type, else 'other'."""
     causes = set()
 
-    def inner(k):  # strip Adjoint(..) layers: (depth, innermost rep)
-        depth = 0
-        while _parts(k) is not None and _parts(k)[0] in ("Adjoint", "Adjoint2") and "base" in _parts(k)[1]:
-            k = _parts(k)[1]["base"]
-            depth += 1
-        return depth, k
+    def inner(k):  # strip Adjoint(..) / Pow(.., z) layers: (wrapper chain, innermost rep)
+        # Pow layers were not stripped before, so the CNOT/Toffoli-vs-MultiControlledX alias seen through
+        # ControlledSequence (emits pow(ctrl(base), z)) landed in 'other' instead of the mcx_alias class.
+        chain = ()
+        while _parts(k) is not None and "base" in _parts(k)[1]:
+            nm, args = _parts(k)
+            if nm in ("Adjoint", "Adjoint2"):
+                chain += ("A",)
+            elif nm in ("Pow", "Pow2") and isinstance(args.get("z"), (int, float)):
+                chain += (("P", args["z"]),)
+            else:
+                break
+            k = args["base"]
+        return chain, k
 
     for e in missing:
         best = None
